@@ -2048,7 +2048,7 @@ def _loop_over_generator(fn):
                 return _loop_over_generator(fn)
 
 
-def _unroll_constant_loops(fn):
+def _unroll_constant_loops(fn, new_callables=()):
     """`for v in (c1, c2, c3): BODY` over a short literal tuple or list of constants / names (or of equally long tuples of them, with a tuple
     target) is BODY three times with the element written in place of the loop variable; only when BODY neither breaks out of nor continues
     this loop and does not rebind the variable"""
@@ -2059,9 +2059,9 @@ def _unroll_constant_loops(fn):
                                             (isinstance(e.func, ast.Name) and e.func.id == 'attrgetter')) and len(e.args) == 1 and not e.keywords and \
             isinstance(e.args[0], ast.Constant) and isinstance(e.args[0].value, str) and e.args[0].value.isidentifier()
 
-    def simple(e):
-        return isinstance(e, (ast.Constant, ast.Name)) or (isinstance(e, ast.Attribute) and simple(e.value)) or getter(e) or \
-            (isinstance(e, ast.Tuple) and all(isinstance(y, (ast.Constant, ast.Name)) or getter(y) for y in e.elts))
+    def simple(e, depth=0):
+        return isinstance(e, (ast.Constant, ast.Name)) or (isinstance(e, ast.Attribute) and simple(e.value, depth)) or getter(e) or \
+            (isinstance(e, ast.Tuple) and depth < 2 and all(simple(y, depth + 1) for y in e.elts))
 
     class _Getters(ast.NodeTransformer):
         # operator.attrgetter('a')(x) is x.a
@@ -2104,7 +2104,14 @@ def _unroll_constant_loops(fn):
                 if not isinstance(table, (ast.Tuple, ast.List)) or not (1 <= len(table.elts) <= 6):
                     continue
                 elts = table.elts
-                if not all(simple(e) for e in elts) or leaves_loop(st.body):
+                # `for case in TABLE: if COND(case): ...; break` -- the first case that matches -- is an if / elif chain over the cases
+                first_match = len(st.body) == 1 and isinstance(st.body[0], ast.If) and not st.body[0].orelse and st.body[0].body and isinstance(st.body[0].body[-1], ast.Break) and \
+                    not leaves_loop(st.body[0].body[:-1])
+                if not all(simple(e) for e in elts) or (leaves_loop(st.body) and not first_match):
+                    continue
+                # only tables of CASES are written out -- rows that name a function that is new in this module, or a field through an attrgetter --;
+                # a loop over plain values (the two quote characters, a list of tags) is a loop the rules know as a loop
+                if not any((isinstance(y, ast.Name) and y.id in new_callables) or getter(y) for e in elts for y in ast.walk(e)):
                     continue
                 if any(isinstance(y, (ast.For, ast.While, ast.ListComp, ast.GeneratorExp, ast.SetComp, ast.DictComp)) for s_ in st.body for y in ast.walk(s_)):
                     continue            # an outer loop around another loop is an order of visits, not a table of cases
@@ -2122,6 +2129,36 @@ def _unroll_constant_loops(fn):
                 if stored & (set(tnames) | elt_names) or nested_use:
                     continue
                 out = []
+                if first_match:
+                    if any(isinstance(y, ast.Name) and isinstance(y.ctx, ast.Load) and y.id in tnames and not any(y is z for s_ in st.body for z in ast.walk(s_)) for y in ast.walk(fn)):
+                        continue        # the loop variable is read after the loop
+                    chain = None
+                    for row in reversed(rows):
+                        m = dict(zip(tnames, row))
+                        inner = st.body[0]
+                        node = ast.copy_location(ast.If(test=_Getters().visit(_Subst(m).visit(copy.deepcopy(inner.test))),
+                                                        body=[_Getters().visit(_Subst(m).visit(copy.deepcopy(b_))) for b_ in inner.body[:-1]] or [ast.copy_location(ast.Pass(), inner)],
+                                                        orelse=(chain if isinstance(chain, list) else [chain]) if chain is not None else []), inner)
+                        t_ = node.test
+                        always = isinstance(t_, ast.Call) and isinstance(t_.func, ast.Name) and t_.func.id == 'isinstance' and len(t_.args) == 2 and \
+                            ((isinstance(t_.args[1], ast.Name) and t_.args[1].id == 'object') or
+                             (isinstance(t_.args[1], ast.Tuple) and any(isinstance(y, ast.Name) and y.id == 'object' for y in t_.args[1].elts)))
+                        if always and _is_pure_path(t_.args[0]):
+                            # everything is an instance of object: this case is the `else` of the chain (later cases are never reached)
+                            chain = node.body
+                        else:
+                            chain = node
+                    if isinstance(chain, list):
+                        chain = ast.copy_location(ast.If(test=ast.copy_location(ast.Constant(value=True), st), body=chain, orelse=[]), st)
+                    ast.fix_missing_locations(chain)
+                    lst[b:b + 1] = [chain]
+                    if isinstance(st.iter, ast.Name) and table is not st.iter and not any(isinstance(y, ast.Name) and y.id == st.iter.id and isinstance(y.ctx, ast.Load) for y in ast.walk(fn)):
+                        for z in ast.walk(fn):
+                            for fld2 in ('body', 'orelse', 'finalbody'):
+                                l2 = getattr(z, fld2, None)
+                                if isinstance(l2, list) and defs[0] in l2:
+                                    l2[l2.index(defs[0])] = ast.copy_location(ast.Pass(), defs[0])
+                    return _unroll_constant_loops(fn, new_callables)
                 inside = {id(y) for s_ in st.body for y in ast.walk(s_)}
                 used_outside = {y.id for y in ast.walk(fn) if isinstance(y, ast.Name) and isinstance(y.ctx, ast.Load) and y.id in tnames and id(y) not in inside}
                 for row in rows:
@@ -2142,7 +2179,7 @@ def _unroll_constant_loops(fn):
                             l2 = getattr(z, fld2, None)
                             if isinstance(l2, list) and defs[0] in l2:
                                 l2[l2.index(defs[0])] = ast.copy_location(ast.Pass(), defs[0])
-                return _unroll_constant_loops(fn)
+                return _unroll_constant_loops(fn, new_callables)
 
 
 def module_constants(tree):
@@ -2571,11 +2608,13 @@ class Module:
         kc = _KNOWN_EXTRA.get('constants', {}).get(relpath)
         if kc is not None:
             _localise_new_constants(raw, set(kc))
+        kfun = known_functions().get(relpath)
+        new_callables = {st.name for st in _toplevel(raw.body) if isinstance(st, (ast.FunctionDef, ast.AsyncFunctionDef)) and kfun is not None and st.name not in kfun}
         for q, node in changed_fns:
             if '.' in q:
                 _unstage_fields(node)
             _loop_over_generator(node)
-            _unroll_constant_loops(node)
+            _unroll_constant_loops(node, new_callables)
         self.tree = ast.fix_missing_locations(_Desugar().visit(raw))
         known = known_functions().get(relpath)
         if known is not None and _InlineNewHelpers(self.tree, known, foreign=foreign, modname=name, is_pkg=relpath.endswith('__init__.py'), known_digests=kd, known_params=_KNOWN_EXTRA.get('params', {}).get(relpath), known_features=_KNOWN_EXTRA.get('features', {}).get(relpath), relpath=relpath).run():
